@@ -403,7 +403,7 @@ func mutations(seed string) [][]byte {
 }
 
 func run(c *enum.Ctx) {
-	c.Rule("per format (FASTA, FASTQ with a Sanger, a Solexa and an Illumina 1.3 template, BED3/4/5/6/12, GFF): (a) every sequence of <=3 (thorough 4) line tokens from an alphabet of 10-30 line shapes (valid lines and every invalid shape the statement lists), each with and without a final newline and with CRLF; (b) every byte string of length <=4 (thorough 5) over 15 structural bytes; (c) every single mutation (thorough: every pair) of a valid seed file: delete/duplicate a line, delete/duplicate/replace a column by {'',0,-1,2^63,x,1e3,' '}, truncate at every byte offset; oracle: no panic, every call returns a record or an error, io.EOF or an error within lines+1 calls, and inputs with an invalid line of a listed kind end in a non-EOF error; (d) FASTQ files of <=3 (4) four-line groups over 7 letters/qualities shapes x 2 '+'-line styles, read on past errors: every record that comes back is its own group and no group with differing lengths ever comes back; distinct = distinct inputs; non-trivial = inputs with at least one complete line")
+	c.Rule("per format (FASTA, FASTQ with a Sanger, a Solexa and an Illumina 1.3 template, BED3/4/5/6/12, GFF): (a) every sequence of <=3 (thorough 4) line tokens from an alphabet of 10-30 line shapes (valid lines and every invalid shape the statement lists), each with and without a final newline and with CRLF; (b) every byte string of length <=4 (thorough 5) over 15 structural bytes; (c) every single mutation (thorough: every pair) of a valid seed file: delete/duplicate a line, delete/duplicate/replace a column by {'',0,-1,2^63,x,1e3,' '}, truncate at every byte offset; oracle: no panic, every call returns a record or an error, io.EOF or an error within lines+1 calls, and inputs with an invalid line of a listed kind end in a non-EOF error; (d) the size ladder (one field of a well-formed file - letters, name, block lists with and without trailing comma, attributes, comment, inline sequence - with 2^k-1, 2^k, 2^k+1 elements up to 1025, thorough 8193); FASTQ files of <=3 (4) four-line groups over 7 letters/qualities shapes x 2 '+'-line styles, read on past errors: every record that comes back is its own group and no group with differing lengths ever comes back; distinct = distinct inputs; non-trivial = inputs with at least one complete line")
 	c.Assume("a hang is detected by a progress watchdog and confirmed by re-running the single input in a child process before it is reported")
 	depth, blen := 3, 4
 	if !c.Quick {
@@ -425,6 +425,9 @@ func run(c *enum.Ctx) {
 		}
 	}
 	jobs = append(jobs, job{"fastq", 4})
+	for _, f := range formats {
+		jobs = append(jobs, job{f, 5})
+	}
 	enum.Parallel(len(jobs), func(ji int) {
 		j := jobs[ji]
 		nt := enum.NontrivialSet{}
@@ -472,6 +475,48 @@ func run(c *enum.Ctx) {
 				}
 			}
 			rec()
+		case 5: // the size ladder: one field of a well-formed file has 2^k-1, 2^k, 2^k+1 elements / letters
+			top := 1025
+			if !c.Quick {
+				top = 8193
+			}
+			for _, n := range enum.Ladder(3, top) {
+				rep := func(unit string, sep string) string {
+					parts := make([]string, n)
+					for i := range parts {
+						parts[i] = fmt.Sprintf(unit, i%9+1)
+					}
+					return strings.Join(parts, sep)
+				}
+				var texts []string
+				switch {
+				case j.format == "fasta":
+					texts = []string{">id d\n" + strings.Repeat("acgt", n)[:n] + "\n>b\nac\n", ">" + strings.Repeat("i", n) + " " + strings.Repeat("d", n) + "\nac\n"}
+				case strings.HasPrefix(j.format, "fastq"):
+					texts = []string{"@id\n" + strings.Repeat("acgt", n)[:n] + "\n+\n" + strings.Repeat("I", n) + "\n@b\nac\n+\nII\n", "@id\n" + strings.Repeat("a", n) + "\n+\n" + strings.Repeat("I", n-1) + "\n"}
+				case j.format == "bed12":
+					for _, tail := range []string{"", ","} {
+						texts = append(texts, fmt.Sprintf("chr1\t0\t%d\tn\t0\t+\t0\t0\t0\t%d\t%s%s\t%s%s\nchr2\t0\t5\tn2\t0\t.\t0\t0\t0\t1\t5\t0\n", 20*n, n, rep("%d", ","), tail, rep("%d", ","), tail))
+					}
+					texts = append(texts, fmt.Sprintf("chr1\t0\t9\tn\t0\t+\t0\t0\t%s\t1\t5\t0\n", rep("%d", ",")))
+				case strings.HasPrefix(j.format, "bed"):
+					var nc int
+					fmt.Sscan(j.format[3:], &nc)
+					cols := []string{strings.Repeat("c", n), "10", "20", strings.Repeat("n", n), "5", "+"}
+					texts = []string{strings.Join(cols[:nc], "\t") + "\n" + strings.Join(cols[:nc], "\t") + "\n"}
+				default: // gff
+					texts = []string{
+						"seq\tsrc\tfeat\t1\t5\t.\t+\t.\t" + rep("tag%d v", "; ") + "\tcomment\n",
+						"seq\tsrc\tfeat\t1\t5\t.\t+\t.\tID x\t" + strings.Repeat("c", n) + "\n",
+						"##DNA s1\n##" + strings.Repeat("acgt", n)[:n] + "\n##end-DNA\nseq\tsrc\tfeat\t1\t5\t.\t+\t.\n",
+						"##sequence-region " + strings.Repeat("r", n) + " 1 5\n",
+					}
+				}
+				for _, t := range texts {
+					eval(kase{Format: j.format, Data: []byte(t)})
+					eval(kase{Format: j.format, Data: []byte(strings.TrimSuffix(t, "\n"))})
+				}
+			}
 		case 4: // FASTQ files of <=depth four-line groups, read on past errors
 			type shape struct{ letters, quals string }
 			shapes := []shape{{"acgt", "IIII"}, {"acgt", "II"}, {"ac", "IIII"}, {"ac", "5I"}, {"", "IIII"}, {"", "II"}, {"", ""}}
